@@ -121,9 +121,10 @@ EXTRA_MODULES = {
             "CodeLimit.Props.C01arrow", "CodeLimit.Props.C01marks", "CodeLimit.Props.C01pytext", "CodeLimit.Props.C01marktext"],
     "C02": ["CodeLimit.Props.Gaps"],
     "C03": ["CodeLimit.Lemmas.GenTie", "CodeLimit.Props.Gaps", "CodeLimit.Props.C12cwd"],
-    "C10": ["CodeLimit.Props.Gaps"],
+    "C10": ["CodeLimit.Props.Gaps", "CodeLimit.Props.C10real"],
     "C04": ["CodeLimit.Lemmas.GenTie", "CodeLimit.Props.C01marks"],
-    "C05": ["CodeLimit.Lemmas.GenTie", "CodeLimit.Props.C05text"],
+    "C05": ["CodeLimit.Lemmas.GenTie", "CodeLimit.Props.C05text", "CodeLimit.Props.C05report"],
+    "C06": ["CodeLimit.Props.C06scan"],
     "C09": ["CodeLimit.Props.Pipeline", "CodeLimit.Props.C09sel"],
     "C11": ["CodeLimit.Props.C11pat", "CodeLimit.Props.C11patRegex", "CodeLimit.Props.Pipeline", "CodeLimit.Props.Entry"],
     "C12": ["CodeLimit.Props.C11pat", "CodeLimit.Props.Pipeline", "CodeLimit.Props.C12cwd", "CodeLimit.Props.Entry"],
